@@ -2,6 +2,8 @@
 import json
 import os
 import re
+import shutil
+import tempfile
 
 from . import common as C
 
@@ -50,6 +52,13 @@ META = {
                     "reproduces the recorded findings F1-F4"],
 }
 
+PRUNE_PREAMBLE = """From DL Require Import Lib.Bytes Model.WorkerFs Model.Worker Model.WorkerCheck.
+Open Scope N_scope.
+Open Scope string_scope.
+Definition check_case (k : prune_case) : bool := prune_check k.
+Definition diag_case (k : prune_case) : string := "dirs differ".
+"""
+
 PREAMBLE = """From DL Require Import Lib.Bytes Model.WorkerFs Model.Worker Model.WorkerCheck.
 Open Scope N_scope.
 Open Scope string_scope.
@@ -65,8 +74,11 @@ KNOWN_CLASSES = {
     "F2": "failed-require-not-registered:BuildModuleDefinitions::apply",
     "F3": "remove-directory-stale-node-index:WorkerTree::remove_source-directory-arm",
     "F4": "remove-directory-dependents-not-restarted:WorkerTree::remove_source-directory-arm",
+    "F6": "no-pruning-without-snapshot:WorkerTree::clean_files",
 }
 KNOWN_TEXT = {
+    "F6": "when the output folder did not exist before the first run no snapshot is taken and clean_files prunes "
+          "nothing: the directories of removed outputs stay behind empty (a fresh run does not create them)",
     "F1": "a source that stops transforming keeps the output of an earlier pass (a fresh run writes nothing for it)",
     "F2": "a bundle entry that failed on a missing or broken required file is not retried when that file is "
           "repaired or re-created (failed requires are not registered as dependencies)",
@@ -373,6 +385,52 @@ def run(ctx):
                 ctx.violation(KNOWN_TEXT["F3"], replay, key=KNOWN_CLASSES["F3"])
             else:
                 ctx.violation("the worker panics: " + msg, replay, key="panic:" + rec["h"])
+
+    # ---- real directory: the same oracle, and the directories (ancestor pruning of clean_files)
+    root = tempfile.mkdtemp(prefix="dl-c10-", dir="/tmp")
+    try:
+        out = C.harness("dl-c10", ["disk", "--root", root], timeout=600)
+    finally:
+        shutil.rmtree(root, ignore_errors=True)
+    _, disk_records = read_harness(out)
+    prune_cases = []
+    n_disk_points = 0
+    for rec in disk_records:
+        replay = {"history": rec["h"], "preexisting_output": rec["preexisting_output"],
+                  "replay": "harness/target/release/dl-c10 disk --root /tmp/<dir>"}
+        if rec["verdict"] != "ok":
+            ctx.violation("on a real directory the output files differ from a fresh run (%s)" % rec["verdict"],
+                          dict(replay, detail=rec["detail"]), key="disk-differs:" + rec["h"])
+            continue
+        initial_dirs = {"out", "out/keep", "out/emptykeep"} if rec["preexisting_output"] else set()
+        for prev, step in zip(rec["steps"], rec["steps"][1:]):
+            if step["ev"] != "P" or "fresh" not in step:
+                continue
+            n_disk_points += 1
+            got = set(step["dirs"])
+            want = set(step["fresh"].get("dirs", [])) | initial_dirs
+            if got != want:
+                extra, missing = sorted(got - want), sorted(want - got)
+                r = dict(replay, extra_directories=extra, missing_directories=missing)
+                if not rec["preexisting_output"] and not missing and step["state"]["snapshot"] is None:
+                    ctx.violation(KNOWN_TEXT["F6"], r, key=KNOWN_CLASSES["F6"])
+                else:
+                    ctx.violation("the directories below the output folder differ from a fresh run", r,
+                                  key="disk-dirs:" + rec["h"])
+            snapshot = prev.get("state", {}).get("snapshot") if prev.get("state") else None
+            if snapshot is not None and prev["state"]["remove_files"]:
+                removed = prev["state"]["remove_files"]
+                before = set(prev["out"])
+                written = [p for p in step["out"] if p not in before or p in removed]
+                prune_cases.append((len(prune_cases), "(mkPrune [%s] [%s] [%s] [%s] [%s] [%s])" % tuple(
+                    "; ".join(cpath(p) for p in l) for l in (
+                        snapshot, sorted(before), prev["dirs"], removed, written, step["dirs"]))))
+    bad_prune = C.run_coq_cases(ctx.prop, PRUNE_PREAMBLE, prune_cases, tag="prune") if prune_cases else []
+    ctx.stream("real directory: files and directories after every process vs a fresh run; prune_ancestors model vs disk",
+               n_disk_points, len(prune_cases), [], prune_model_mismatches=len(bad_prune))
+    if bad_prune and not ctx.violations:
+        ctx.violation("correspondence broken: Model/Worker.v prune_ancestors and clean_files on disk disagree",
+                      {"stream": "prune model-vs-code", "case": prune_cases[bad_prune[0][0]][1][:1500]}, found_input=False)
 
     n_x, n_groups, x_problems = check_xform_hypotheses(records)
     for prob in x_problems[:3]:
